@@ -86,6 +86,20 @@ func (c24) Generate(r *engine.Rand, index int, tier string) *engine.Scenario {
 		}
 		sc.SetP("burst2", int64(b2))
 		sc.Cycles = uint64(r.Range(1, 3)) * 17556
+		if r.Bool() {
+			sc.SetP("by_display", 1) // the display asks to close after the last frame
+		}
+		// the guest switches the sound unit off and on and starts notes while the consumer is behind
+		for i, n := 0, r.Range(0, 6); i < n; i++ {
+			at := uint64(r.Intn(int(sc.Cycles)))
+			sc.Events = append(sc.Events, engine.Event{At: at, K: "bus_w", A: 0xff26, V: 0x00})
+			sc.Events = append(sc.Events, engine.Event{At: at + uint64(r.Range(1, 3000)), K: "bus_w", A: 0xff26, V: 0x80})
+			sc.Events = append(sc.Events, engine.Event{At: at + 3001, K: "bus_w", A: 0xff25, V: 0xff})
+			sc.Events = append(sc.Events, engine.Event{At: at + 3002, K: "bus_w", A: 0xff24, V: 0x77})
+			sc.Events = append(sc.Events, engine.Event{At: at + 3003, K: "bus_w", A: 0xff17, V: 0xf0})
+			sc.Events = append(sc.Events, engine.Event{At: at + 3004, K: "bus_w", A: 0xff19, V: 0x87})
+		}
+		sortEvents(sc.Events)
 		return sc
 	}
 	w.store(sc, "")
@@ -197,7 +211,7 @@ func (c24) Execute(sc *engine.Scenario) *engine.Result {
 		frames := int(sc.Cycles / 17556)
 		var prevL, prevR []float32
 		for i, b := range []int{int(sc.P("burst1", 1)), int(sc.P("burst2", 7))} {
-			ls, rs, ok := runWithConsumer(w, frames, sc.ChanCap, b, res)
+			ls, rs, ok := runWithConsumer(w, frames, sc.ChanCap, b, sc.Events, sc.P("by_display", 0) != 0, res)
 			if !ok {
 				return res
 			}
